@@ -370,6 +370,8 @@ def rule_respell(ck):
                                     + " - the emitted bytes depend on spelling, not on meaning", construct=f"respelling {how}: {plain.strip()}")
 
 def run(ck):
+    from ..rules import route as _route
+    ck.run_rule("BLK.route", "an implicit word list and '.word' are one statement: values, byte order and the meaning of '.' agree", 1, _route.rule_block_route)
     ck.run_rule("C10.parse", "letter case, horizontal whitespace, blank lines, comments and a missing final newline do not change the parse tree (real parser on a statement corpus)", 150, rule_respell)
     ck.run_rule("G6", "comparisons of source text with cased constants are case-folded", 25, rule_G6)
     ck.run_rule("G6.tab", "symbol/instruction/operator tables are case-insensitive; every method lowers its key", 10, rule_tables)
